@@ -970,6 +970,34 @@ func (ev *evaluator) evalCall(c *mrogen.Call, en *env) *callResult {
 		}
 	}
 	ev.feature(fmt.Sprintf("map-size:%d", min(n, 4)))
+	{
+		dynamic := false
+		for _, b := range c.Bindings {
+			if sp, ok := b.E.(mrogen.Split); ok {
+				if _, isRef := sp.E.(mrogen.Ref); isRef {
+					for _, s := range splits {
+						if s.param == b.Param && len(s.val.d.flat()) > 0 {
+							dynamic = true
+						}
+					}
+				}
+			}
+		}
+		if dynamic && n >= 3 {
+			ev.feature("map-dynamic-size>=3")
+		}
+		for _, a := range fixed {
+			for k := range a.d.flat() {
+				if strings.HasPrefix(k, "@") {
+					ev.feature("mapped-call-takes-merged-output")
+					if dynamic {
+						ev.feature("dynamic-mapped-call-takes-merged-output")
+					}
+					break
+				}
+			}
+		}
+	}
 	perOut := map[string][]any{}
 	perOutDep := map[string][]*dep{}
 	var wholes []any
